@@ -1,10 +1,12 @@
 pub mod c01;
+pub mod c09;
 
 use crate::Prop;
 
 pub fn lookup(id: &str) -> Option<Box<dyn Prop>> {
     Some(match id {
         "C01" => Box::new(c01::C01),
+        "C09" => Box::new(c09::C09),
         _ => return None,
     })
 }
